@@ -342,12 +342,25 @@ def any_marker_cases():
             yield ("any-marker-elements:%s%s" % ("+".join(kinds), ":tail" if tail else ""), {"main.xsd": xsd}, ref, None, mk(kinds, many, tail))
 
 
+def nillable_spelling_cases():
+    """nillable is an xsd:boolean: `1` and `true` both say a required element may be sent as xsi:nil"""
+    for sp in ("true", "1"):
+        for kind, ty in (("leaf", 'type="xs:string"'), ("record", 'type="t:R"')):
+            xsd = ('<xs:schema xmlns:xs="http://www.w3.org/2001/XMLSchema" xmlns:t="urn:fam" targetNamespace="urn:fam" elementFormDefault="qualified">'
+                   '<xs:complexType name="R"><xs:sequence><xs:element name="x" type="xs:string"/></xs:sequence></xs:complexType>'
+                   '<xs:element name="root"><xs:complexType><xs:sequence><xs:element name="a" type="xs:string"/><xs:element name="r" %s nillable="%s"/>'
+                   '</xs:sequence></xs:complexType></xs:element></xs:schema>' % (ty, sp))
+            ref = ('<f:root xmlns:f="urn:fam"><f:a>A</f:a><f:r xmlns:xsi="http://www.w3.org/2001/XMLSchema-instance" xsi:nil="true"/></f:root>')
+            yield ("nillable-spellings:%s:%s" % (sp, kind), {"main.xsd": xsd}, ref, {"a": "A", "r": None}, None)
+
+
 ACCEPT_ONLY = ("all-same-local-name",)
 # (property, family) -> (finding id, the text that identifies it)
 KNOWN = {("C03", "any-marker-elements"): ("K17", "re-serialising the decoded value raises TypeError: Any element received object")}
 
 
 def all_cases():
+    yield from nillable_spelling_cases()
     yield from any_marker_cases()
     yield from inline_type_cases()
     yield from all_same_local_name_cases()
